@@ -111,6 +111,25 @@ def dir_cycle(src, base, img):
     return ["directories %d and %d made each other's parent and unlinked from the root (link counts consistent)" % (za, zb)]
 
 
+def dir_cycle_tail(src, base, img):
+    """a loop of two directories with a tail: ZC (the lowest inode number) hangs below ZA, ZA and ZB are each other's parent,
+    nothing is reachable from the root; link counts and '..' entries are consistent"""
+    shutil.copy(base, img)
+    env = e2v.tool_env(src)
+    dbg = os.path.join(src, "debugfs/debugfs")
+    e2v.sh([dbg, "-w", "-f", "-", img], input=b"mkdir ZC\nmkdir ZA\nmkdir ZA/ZB\n", env=env, timeout=60)
+    fs = Fs(img)
+    root = {e[0]: e[1] for e in fs.dir_entries(2)}
+    za, zc = root[b"ZA"], root[b"ZC"]
+    zb = {e[0]: e[1] for e in fs.dir_entries(za)}[b"ZB"]
+    rl = fs.inode(2)["links"]
+    cmds = ("ln <%d> <%d>/ZC\nunlink ZC\nunlink <%d>/..\nln <%d> <%d>/..\n" % (zc, za, zc, za, zc) +
+            "ln <%d> <%d>/A2\nunlink ZA\nunlink <%d>/..\nln <%d> <%d>/..\n" % (za, zb, za, zb, za) +
+            "sif <2> links_count %d\nsif <%d> links_count 4\nsif <%d> links_count 3\nsif <%d> links_count 2\n" % (rl - 2, za, zb, zc))
+    e2v.sh([dbg, "-w", "-f", "-", img], input=cmds.encode(), env=env, timeout=60)
+    return ["directories %d and %d made each other's parent, directory %d (lower inode number) hangs below %d; all unlinked from the root (link counts consistent)" % (za, zb, zc, za)]
+
+
 def one_case(src, idx, seed, tier, keep=False):
     r = e2v.rng(seed, "c02", idx)
     name, opts, size = corrupt.IMG_CONFIGS[idx % len(corrupt.IMG_CONFIGS)] if tier == "quick" else r.choice(corrupt.IMG_CONFIGS)
@@ -122,15 +141,19 @@ def one_case(src, idx, seed, tier, keep=False):
         name, opts, size = [c for c in corrupt.IMG_CONFIGS if c[0] == ("ext3" if idx % 2 == 0 else "ext4_1k")][0]
         base = corrupt.build_image(src, WORK, name, opts, size, 1)
         desc = corrupt.corrupt(base, img, r, directed=idx // 2)
-    elif idx < nd + 2:
+    elif idx < nd + 4:
         name, opts, size = [c for c in corrupt.IMG_CONFIGS if c[0] == ("ext3" if idx % 2 == 0 else "ext4_1k")][0]
         base = corrupt.build_image(src, WORK, name, opts, size, 1)
-        desc = dir_cycle(src, base, img)
-    elif idx < nd + 2 + 2 * len(corrupt.PAIRS):
-        k = idx - nd - 2
+        desc = dir_cycle(src, base, img) if idx < nd + 2 else dir_cycle_tail(src, base, img)
+    elif idx < nd + 4 + 2 * len(corrupt.PAIRS):
+        k = idx - nd - 4
         name, opts, size = [c for c in corrupt.IMG_CONFIGS if c[0] == ("ext4_metabg48" if k % 2 == 0 else "ext4_1k")][0]
         base = corrupt.build_image(src, WORK, name, opts, size, 1)
         desc = corrupt.corrupt(base, img, r, directed=corrupt.PAIRS[k // 2])
+    elif idx < nd + 4 + 2 * len(corrupt.PAIRS) + 4:
+        name, opts, size = [c for c in corrupt.IMG_CONFIGS if c[0] == "ext4_itb46"][0]
+        base = corrupt.build_image(src, WORK, name, opts, size, 1)
+        desc = corrupt.corrupt(base, img, r, directed=[(corrupt.op_inode_csum_late, None)])
     else:
         desc = corrupt.corrupt(base, img, r)
     recipe = {"base": name, "mke2fs": opts, "size": size, "build_seed": 1 + (idx // 200) % 3, "case_index": idx, "operators": desc}
@@ -184,7 +207,7 @@ class BaseNotClean(Exception):
 
 def campaign(src, seed, tier, n=None):
     os.makedirs(WORK, exist_ok=True)
-    n = n or (140 if tier == "quick" else 6000)
+    n = n or (150 if tier == "quick" else 6000)
     for i, (name, opts, size) in enumerate(corrupt.IMG_CONFIGS):
         try:
             corrupt.build_image(src, WORK, name, opts, size, 1)
